@@ -167,6 +167,12 @@ func (c *Ctx) rulesC02(a *coreAnchors) {
 						if derives(st.Val, func(x ssa.Value) bool { return fieldOf(x) == fRemove || loadOfField(x) == fRemove }) {
 							return true
 						}
+						// collected by a private helper of TargetStates
+						if hc, ok := st.Val.(*ssa.Call); ok {
+							if g := hc.Call.StaticCallee(); g != nil && g.Blocks != nil && c.hostedBy(g, ts) && funcReadsField(g, fRemove) {
+								return true
+							}
+						}
 					}
 				}
 			}
@@ -193,11 +199,16 @@ func (c *Ctx) rulesC02(a *coreAnchors) {
 		if nf < 2 {
 			c.undecided(fmt.Sprintf("C02.last: only %d Remove-based slicesFilter calls recognised in TargetStates", nf))
 		}
-		c.check(funcReadsField(ts, fRemove), "C02.last", "TargetStates builds the Remove set from State.Remove", ts.Pos(), "Remove relations of the states about to be set are not consulted")
+		readsRemove := false
+		for _, hf := range c.hostedFns(ts) {
+			readsRemove = readsRemove || funcReadsField(hf, fRemove)
+		}
+		c.check(readsRemove, "C02.last", "TargetStates builds the Remove set from State.Remove", ts.Pos(), "Remove relations of the states about to be set are not consulted")
 	}
 	// the Require filter decides from the missing requirements of EVERY state, whatever its history
+	fReq := c.field(pm, "State", "Require")
 	if pr != nil {
-		gm := c.fn(pm + ":DefaultRelationsResolver.getMissingRequires")
+		gm := c.fnOpt(pm + ":DefaultRelationsResolver.getMissingRequires")
 		nr := 0
 		var clos []*ssa.Function
 		for _, hf := range c.hostedFns(pr) {
@@ -210,6 +221,7 @@ func (c *Ctx) rulesC02(a *coreAnchors) {
 						continue
 					}
 					nr++
+					seenPhi := map[*ssa.Phi]bool{}
 					var fromGM func(x ssa.Value, d int) bool
 					fromGM = func(x ssa.Value, d int) bool {
 						if d > 12 {
@@ -217,8 +229,18 @@ func (c *Ctx) rulesC02(a *coreAnchors) {
 						}
 						switch y := x.(type) {
 						case *ssa.Call:
-							if y.Call.StaticCallee() == gm {
+							if gm != nil && y.Call.StaticCallee() == gm {
 								return true
+							}
+							// the missing list built in place: appended from State.Require
+							if bi, ok := y.Call.Value.(*ssa.Builtin); ok && bi.Name() == "append" && fReq != nil {
+								for _, a := range y.Call.Args[1:] {
+									for _, el := range variadicElems(a) {
+										if elemOfField(el, fReq, 0) {
+											return true
+										}
+									}
+								}
 							}
 							for _, a := range y.Call.Args {
 								if fromGM(a, d+1) {
@@ -230,16 +252,30 @@ func (c *Ctx) rulesC02(a *coreAnchors) {
 						case *ssa.UnOp:
 							return fromGM(y.X, d+1)
 						case *ssa.Phi:
+							// a list variable: every assignment other than the empty
+							// initial value and the loop-carried value itself
+							if seenPhi[y] {
+								return true
+							}
+							seenPhi[y] = true
+							real := 0
 							for _, e := range y.Edges {
+								if e == ssa.Value(y) || isEmptySliceLit(e) {
+									continue
+								}
+								if p2, ok := e.(*ssa.Phi); ok && seenPhi[p2] {
+									continue
+								}
 								if !fromGM(e, d+1) {
 									return false
 								}
+								real++
 							}
-							return len(y.Edges) > 0
+							return real > 0
 						}
 						return false
 					}
-					good := gm != nil && fromGM(v, 0)
+					good := fromGM(v, 0)
 					c.check(good, "C02.last", "parseRequire keeps a state only by its missing requirements"+nth(i), r.Pos(),
 						"the Require filter returns "+render(v)+", which is not (only) a function of getMissingRequires: some states are kept without their Require relation being re-checked, e.g. after another state's Remove relation took the requirement away")
 				}
@@ -251,20 +287,43 @@ func (c *Ctx) rulesC02(a *coreAnchors) {
 	}
 	// the Require fixed point re-evaluates against the SHRINKING list
 	if pr != nil {
-		gm := c.fn(pm + ":DefaultRelationsResolver.getMissingRequires")
+		gm := c.fnOpt(pm + ":DefaultRelationsResolver.getMissingRequires")
 		ng := 0
 		var visit func(f *ssa.Function)
 		visit = func(f *ssa.Function) {
 			for _, a := range f.AnonFuncs {
 				visit(a)
 			}
-			if gm == nil {
-				return
+			// the candidate list the requirements are looked up in: the last
+			// argument of getMissingRequires, or (helper inlined) the list of a
+			// Contains(list, req) whose req comes from State.Require
+			type candSite struct {
+				ins  ssa.CallInstruction
+				cand ssa.Value
 			}
-			for i, s := range c.sitesIn(f, funcKey(gm)) {
+			var css []candSite
+			if gm != nil {
+				for _, s := range c.sitesIn(f, funcKey(gm)) {
+					args := s.Common().Args
+					css = append(css, candSite{s, args[len(args)-1]})
+				}
+			} else if fReq != nil {
+				for _, b := range f.Blocks {
+					for _, ins := range b.Instrs {
+						call, ok := ins.(*ssa.Call)
+						if !ok || calleeName(&call.Call) != "Contains" || len(call.Call.Args) != 2 {
+							continue
+						}
+						if elemOfField(call.Call.Args[1], fReq, 0) {
+							css = append(css, candSite{call, call.Call.Args[0]})
+						}
+					}
+				}
+			}
+			for i, cs := range css {
+				s := cs.ins
 				ng++
-				args := s.Common().Args
-				cand := args[len(args)-1]
+				cand := cs.cand
 				good, why := false, "the candidate list is "+render(cand)
 				if u, ok := cand.(*ssa.UnOp); ok && u.Op == token.MUL {
 					if al := funcVarAllocAny(u.X); al != nil && al.Referrers() != nil {
@@ -304,7 +363,11 @@ func (c *Ctx) rulesC02(a *coreAnchors) {
 		fMulti := c.field(pm, "State", "Multi")
 		fAS := c.field(pm, "Machine", "activeStates")
 		na := 0
-		for _, b := range ts.Blocks {
+		var tsBlocks []*ssa.BasicBlock
+		for _, hf := range c.hostedFns(ts) {
+			tsBlocks = append(tsBlocks, hf.Blocks...)
+		}
+		for _, b := range tsBlocks {
 			for _, ins := range b.Instrs {
 				call, ok := ins.(*ssa.Call)
 				if !ok {
@@ -330,7 +393,7 @@ func (c *Ctx) rulesC02(a *coreAnchors) {
 					})
 					return out
 				}
-				for _, g := range guardsOf(b) {
+				for _, g := range c.guardsHosted(ins, ts) {
 					if m := mentions(g.Cond); m != "" {
 						bad = m
 					}
@@ -348,7 +411,7 @@ func (c *Ctx) rulesC02(a *coreAnchors) {
 					}
 				}
 				if header != nil {
-					for _, x := range ts.Blocks {
+					for _, x := range b.Parent().Blocks {
 						if !header.Dominates(x) || !blockReach(x)[header] || len(x.Instrs) == 0 {
 							continue
 						}
@@ -677,4 +740,53 @@ func sameSliceVar(a, b ssa.Value) bool {
 // Alloc itself or a free variable bound to it (any type, not only funcs).
 func funcVarAllocAny(addr ssa.Value) *ssa.Alloc {
 	return funcVarAlloc(addr)
+}
+
+// isEmptySliceLit: S{} / nil / make(S, 0).
+func isEmptySliceLit(v ssa.Value) bool {
+	switch x := v.(type) {
+	case *ssa.Const:
+		return x.IsNil()
+	case *ssa.Slice:
+		if al, ok := x.X.(*ssa.Alloc); ok {
+			if pt, ok := al.Type().Underlying().(*types.Pointer); ok {
+				if at, ok := pt.Elem().Underlying().(*types.Array); ok && at.Len() == 0 {
+					return true
+				}
+			}
+		}
+	case *ssa.MakeSlice:
+		if n, ok := constInt(x.Len); ok && n == 0 {
+			return true
+		}
+	}
+	return false
+}
+
+// elemOfField: v is the field's value or an element of it (through loads,
+// indexing, reslicing and range phis).
+func elemOfField(v ssa.Value, fld *types.Var, d int) bool {
+	if v == nil || d > 10 {
+		return false
+	}
+	if fieldOf(v) == fld || loadOfField(v) == fld {
+		return true
+	}
+	switch x := v.(type) {
+	case *ssa.UnOp:
+		return elemOfField(x.X, fld, d+1)
+	case *ssa.IndexAddr:
+		return elemOfField(x.X, fld, d+1)
+	case *ssa.Index:
+		return elemOfField(x.X, fld, d+1)
+	case *ssa.Slice:
+		return elemOfField(x.X, fld, d+1)
+	case *ssa.ChangeType:
+		return elemOfField(x.X, fld, d+1)
+	case *ssa.Field:
+		return elemOfField(x.X, fld, d+1)
+	case *ssa.FieldAddr:
+		return elemOfField(x.X, fld, d+1)
+	}
+	return false
 }
